@@ -62,6 +62,16 @@ def _assess_table(ck, repo, nf):
     ck.need(all(f in fields for f in FIELDS), f"CheckpointState fields changed: {fields}")
     E, T, M, MIN, BEST = (f"{S}.{f}" for f in FIELDS)
     env0 = {p: Poly.atom(p, {p}, {p}) for p in params}
+    # parameters added after the documented seven are options the table does not mention: the table documents their defaults
+    a_ = fn.args
+    defaults_ = dict(zip([x.arg for x in (a_.posonlyargs + a_.args)][len(a_.posonlyargs + a_.args) - len(a_.defaults):], a_.defaults))
+    defaults_.update({x.arg: d for x, d in zip(a_.kwonlyargs, a_.kw_defaults) if d is not None})
+    for p in params[7:]:
+        d_ = defaults_.get(p)
+        if isinstance(d_, ast.Constant) and isinstance(d_.value, (bool, int, float)):
+            env0[p] = Poly.const(int(d_.value) if isinstance(d_.value, bool) else d_.value)
+        elif not (isinstance(d_, ast.Constant) and d_.value is None):
+            raise AnalysisError(f"{AQ}: new parameter `{p}` has no constant default: the documented table cannot be compared (unrecognised form)")
     old = {f"{S}.{f}": Poly.atom(f"old.{f}") for f in FIELDS}
     e1, t1 = old[E] + Poly.const(1), old[T] + env0[SPE]
     m1 = nf.poly(parse_expr("min(OLDMIN, RETURN)"), Scope(None, mi, {"OLDMIN": old[MIN], "RETURN": env0[RET]}, AQ), None)
